@@ -6,6 +6,9 @@ Scenario:
   rtt0    initial rtt_estimate in ticks
   den     ticks per second (a power of two <= 64): instants, delays and RTT samples are ticks/den
   size    flow size in bytes (0 = unbounded source)
+  gaps    (optional) Flow.arrival_dist: scripted inter-arrival times of application data in ticks (last one repeats):
+          the sender really sleeps in its refill loop while ACKs / duplicates / timer expiries change the window
+  chunks  (optional) Flow.size_dist: scripted sizes in bytes of the chunks the application hands over (last repeats)
   ev      [{"op": "A", "dt", "k", "rtt", "late"}   new ACK advancing last_ack by k segments (clipped to what was sent),
                                                   delivered dt ticks after the previous scripted event; rtt >= 0:
                                                   the ACK's time stamp is now - rtt ticks; rtt = -1: the time stamp of
@@ -79,7 +82,21 @@ def run_one(sc):
         cc = TCPCubic()
     else:
         cc = TCPReno(mss=MSS, cwnd=sc["cwnd"], ssthresh=sc["ssthresh"])
-    flow = Flow(flow_id=0, src="s", dst="d", finish_time=10 ** 9, size=sc.get("size") or None)
+    def scripted(vals, conv):
+        it = {"i": 0}
+
+        def nxt():
+            v = vals[min(it["i"], len(vals) - 1)]
+            it["i"] += 1
+            return conv(v)
+        return nxt
+
+    kw = {}
+    if sc.get("gaps"):        # application-limited flow: data is handed over in scripted chunks at scripted gaps
+        kw["arrival_dist"] = scripted(sc["gaps"], tm)
+    if sc.get("chunks"):
+        kw["size_dist"] = scripted(sc["chunks"], int)
+    flow = Flow(flow_id=0, src="s", dst="d", finish_time=10 ** 9, size=sc.get("size") or None, **kw)
     snd = TCPPacketGenerator(env, flow, cc, element_id="snd", rtt_estimate=tm(sc.get("rtt0", den)))
 
     def cubic_state():
